@@ -5,14 +5,17 @@ import MxModel.Props.C01
 
 The specification `Den` mentions the cached flag in two places only: user-assigned values
 (inputs) are consulted for cached cells only, and `None` is rejected for cached cells only.
-`flags_irrelevant_to_values`: apart from those two documented differences – i.e. when no
-element has an input and `None` is allowed everywhere – the specification does not depend on
-the flags at all; with C01 (the mechanism returns the specification's value under *every*
-flag assignment) every assignment of the flags gives the same results.
-That *invalidation* still reaches every value computed through uncached cells after edits is
-not a Lean theorem here; it is decided by the implementation-only oracle (same history under
-all flag assignments, random and small-scope exhaustive) – two defects found that way were
-repaired (known_findings.json).
+`flags_irrelevant_to_values_partial`: two flag assignments give the same specification as soon as
+(I) assigned values sit only on cells whose flag is the same in both (an uncached cells accepts no
+assignment), and (II) no formula of a cells whose flag DIFFERS returns `None` where `None` is not
+allowed – (II) excludes exactly the recorded finding C09-uncached-none-unchecked
+(`flags_full_statement_fails`), nothing else; the default configuration `allow_none = False` is
+covered.  `flags_irrelevant_when_none_never_returned`: the same with (II) stated on the all-cached
+assignment alone ("no evaluation fails with `NoneReturnedError`").  With C01 (the mechanism returns
+the specification's value under *every* flag assignment) every assignment gives the same results:
+`mechanism_results_flag_independent_partial`; and after any history of evaluations and reference /
+formula / flag edits (`results_flag_independent_after_history_partial`: both runs hold certificates
+for their own definitions, C02, and the two specifications coincide).
 -/
 namespace MxModel.C09
 open MxModel.Exec
@@ -30,47 +33,162 @@ theorem denoteBody_congr (env env' : Env) (f : Node → Res × Bool) (hr : env'.
   | read a r k ih => simp only [denoteBody, hr]; exact ih _
   | call n k ih => simp only [denoteBody, calleeAt, ha, ih]
 
-/-- **Switching any subset of cells between cached and uncached changes no value**
-(specification level; no inputs, `None` allowed). -/
-theorem flags_irrelevant_to_values (env : Env) (c : CellId → Bool)
-    (hnone : ∀ x, env.allowNone x = true) :
-    ∀ (d : Nat) (n : Node),
-      denoteN (withFlags env c) (fun _ => none) d n = denoteN env (fun _ => none) d n := by
+/-- **Two flag assignments give the same values** (specification level; partial: (I) and (II)).
+(I) `hinp`: an element with an assigned value belongs to a cells whose flag is the same in both
+assignments.  (II) `hnone`: no formula of a cells whose flag differs returns `None` where `None` is
+not allowed (stated for the first assignment; by the theorem itself it is then true of the second). -/
+theorem flags_irrelevant_to_values_partial (env : Env) (c1 c2 : CellId → Bool) (inp : Node → Option Val)
+    (hinp : ∀ n, inp n ≠ none → c1 n.1 = c2 n.1)
+    (hnone : ∀ d n, c1 n.1 ≠ c2 n.1 → env.allowNone n.1 = false →
+      (denoteBody (withFlags env c1) (denoteN (withFlags env c1) inp d) (env.formula n)).1 ≠ .ok .none) :
+    ∀ (d : Nat) (n : Node), denoteN (withFlags env c1) inp d n = denoteN (withFlags env c2) inp d n := by
   intro d
   induction d with
   | zero => intro n; rfl
   | succ d ih =>
     intro n
-    have hf : denoteN (withFlags env c) (fun _ => none) d = denoteN env (fun _ => none) d := funext ih
-    simp only [denoteN, hf]
-    have h1 : (if (withFlags env c).cached n.1 = true then (none : Option Val) else none) = none := by split <;> rfl
-    have h2 : (if env.cached n.1 = true then (none : Option Val) else none) = none := by split <;> rfl
-    rw [h1, h2]
-    simp only []
-    rw [denoteBody_congr env (withFlags env c) _ rfl rfl]
-    have hck : ∀ r, checkNone (withFlags env c) n.1 r = checkNone env n.1 r := by
-      intro r
-      unfold checkNone withFlags
-      cases r with
+    have hf : denoteN (withFlags env c1) inp d = denoteN (withFlags env c2) inp d := funext ih
+    have hb := hnone d n
+    simp only [denoteN]
+    rw [← hf, denoteBody_congr (withFlags env c1) (withFlags env c2) _ rfl rfl]
+    have h1 : (if (withFlags env c1).cached n.1 = true then inp n else none) =
+        (if (withFlags env c2).cached n.1 = true then inp n else none) := by
+      show (if c1 n.1 = true then inp n else none) = (if c2 n.1 = true then inp n else none)
+      cases hi : inp n with
+      | none => split <;> split <;> rfl
+      | some v => rw [hinp n (by rw [hi]; exact fun h => by cases h)]
+    rw [h1]
+    have hck : checkNone (withFlags env c1) n.1
+          (denoteBody (withFlags env c1) (denoteN (withFlags env c1) inp d) ((withFlags env c1).formula n)).1 =
+        checkNone (withFlags env c2) n.1
+          (denoteBody (withFlags env c1) (denoteN (withFlags env c1) inp d) ((withFlags env c1).formula n)).1 := by
+      generalize hB : (denoteBody (withFlags env c1) (denoteN (withFlags env c1) inp d)
+        ((withFlags env c1).formula n)).1 = B
+      have hb' : c1 n.1 ≠ c2 n.1 → env.allowNone n.1 = false → B ≠ .ok .none := by
+        intro h1 h2; rw [← hB]; exact hb h1 h2
+      unfold checkNone
+      cases B with
       | err e => rfl
-      | ok v => cases v <;> simp [hnone]
+      | ok v =>
+        cases v with
+        | int i => rfl
+        | none =>
+          show (if (c1 n.1 && !env.allowNone n.1) = true then _ else _) =
+            (if (c2 n.1 && !env.allowNone n.1) = true then _ else _)
+          by_cases hc : c1 n.1 = c2 n.1
+          · rw [hc]
+          · cases ha : env.allowNone n.1 with
+            | true => simp
+            | false => exact absurd rfl (hb' hc ha)
     rw [hck]
     rfl
 
-/-- … hence the mechanism returns the same value under any two flag assignments
-(each equals the specification's value, C01). -/
+/-- no evaluation under the ALL-CACHED assignment fails with `NoneReturnedError`: no formula returns
+`None` where it is not allowed (and none raises that error by hand) -/
+def NoneNeverReturned (env : Env) (inp : Node → Option Val) : Prop :=
+  ∀ d n, (denoteN (withFlags env (fun _ => true)) inp d n).1 ≠ .err .noneRet
+
+/-- **Any flag assignment gives the values of the all-cached assignment** when no evaluation of the
+all-cached model ends in `NoneReturnedError` and the assigned values sit on cached cells (partial:
+these two; `allow_none` may be `False` everywhere – the default). -/
+theorem flags_irrelevant_when_none_never_returned (env : Env) (c : CellId → Bool) (inp : Node → Option Val)
+    (hinp : ∀ n, inp n ≠ none → c n.1 = true) (hnone : NoneNeverReturned env inp) :
+    ∀ (d : Nat) (n : Node),
+      denoteN (withFlags env c) inp d n = denoteN (withFlags env (fun _ => true)) inp d n := by
+  intro d
+  induction d with
+  | zero => intro n; rfl
+  | succ d ih =>
+    intro n
+    have hf : denoteN (withFlags env c) inp d = denoteN (withFlags env (fun _ => true)) inp d := funext ih
+    have hb := hnone (d + 1) n
+    have hbody : denoteBody (withFlags env c) (denoteN (withFlags env c) inp d) ((withFlags env c).formula n) =
+        denoteBody (withFlags env (fun _ => true)) (denoteN (withFlags env (fun _ => true)) inp d)
+          ((withFlags env (fun _ => true)).formula n) := by
+      rw [hf]; exact denoteBody_congr (withFlags env (fun _ => true)) (withFlags env c) _ rfl rfl _
+    have h1 : (if (withFlags env c).cached n.1 = true then inp n else none) = inp n := by
+      show (if c n.1 = true then inp n else none) = inp n
+      cases hi : inp n with
+      | none => split <;> rfl
+      | some v => rw [hinp n (by rw [hi]; exact fun h => by cases h)]; rfl
+    have h2 : (if (withFlags env (fun _ => true)).cached n.1 = true then inp n else none) = inp n := rfl
+    simp only [denoteN] at hb ⊢
+    rw [hbody, h1, h2]
+    rw [h2] at hb
+    generalize (denoteBody (withFlags env (fun _ => true)) (denoteN (withFlags env (fun _ => true)) inp d)
+      ((withFlags env (fun _ => true)).formula n)) = B at hb ⊢
+    cases hi : inp n with
+    | some v => rfl
+    | none =>
+      rw [hi] at hb
+      simp only [] at hb ⊢
+      have hck : checkNone (withFlags env c) n.1 B.1 = checkNone (withFlags env (fun _ => true)) n.1 B.1 := by
+        unfold checkNone at hb ⊢
+        cases hB : B.1 with
+        | err e => rfl
+        | ok v =>
+          cases v with
+          | int i => rfl
+          | none =>
+            rw [hB] at hb
+            show (if (c n.1 && !env.allowNone n.1) = true then _ else _) =
+              (if (true && !env.allowNone n.1) = true then _ else _)
+            cases ha : env.allowNone n.1 with
+            | true => simp
+            | false =>
+              exfalso
+              apply hb
+              show (if (true && !env.allowNone n.1) = true then Res.err .noneRet else _) = _
+              rw [ha]; rfl
+      rw [hck]
+
+/-- …hence any TWO assignments under which the assigned values sit on cached cells agree. -/
+theorem flags_irrelevant_between_assignments (env : Env) (c1 c2 : CellId → Bool) (inp : Node → Option Val)
+    (hinp1 : ∀ n, inp n ≠ none → c1 n.1 = true) (hinp2 : ∀ n, inp n ≠ none → c2 n.1 = true)
+    (hnone : NoneNeverReturned env inp) (d : Nat) (n : Node) :
+    denoteN (withFlags env c1) inp d n = denoteN (withFlags env c2) inp d n := by
+  rw [flags_irrelevant_when_none_never_returned env c1 inp hinp1 hnone,
+    flags_irrelevant_when_none_never_returned env c2 inp hinp2 hnone]
+
+/-- **Switching any subset of cells between cached and uncached changes no value**
+(specification level; no inputs, `None` allowed) – corollary of the theorem above. -/
+theorem flags_irrelevant_to_values (env : Env) (c : CellId → Bool)
+    (hnone : ∀ x, env.allowNone x = true) :
+    ∀ (d : Nat) (n : Node),
+      denoteN (withFlags env c) (fun _ => none) d n = denoteN env (fun _ => none) d n := by
+  intro d n
+  exact flags_irrelevant_to_values_partial env c env.cached (fun _ => none) (fun n h => absurd rfl h)
+    (fun d n _ ha => by rw [hnone] at ha; cases ha) d n
+
+/-- … hence the mechanism returns the same value under any two flag assignments (each equals the
+specification's value, C01; partial: (I), (II) as above and `LimitNotCaughtInThisCall` for the two
+evaluations). -/
+theorem mechanism_results_flag_independent_partial (env : Env) (c1 c2 : CellId → Bool)
+    (inp : Node → Option Val)
+    (hinp : ∀ n, inp n ≠ none → c1 n.1 = c2 n.1)
+    (hnone : ∀ d n, c1 n.1 ≠ c2 n.1 → env.allowNone n.1 = false →
+      (denoteBody (withFlags env c1) (denoteN (withFlags env c1) inp d) (env.formula n)).1 ≠ .ok .none)
+    (n : Node) (s s' : St) (v v' : Val)
+    (hg : Good (withFlags env c1) inp s) (hg' : Good (withFlags env c2) inp s')
+    (he : LimitNotCaughtInThisCall (withFlags env c1) n s)
+    (he' : LimitNotCaughtInThisCall (withFlags env c2) n s')
+    (hv : (evalTop (withFlags env c1) n s).1 = .ok v)
+    (hv' : (evalTop (withFlags env c2) n s').1 = .ok v') : v = v' := by
+  have a := (C01.eval_value_is_denotation_partial _ _ n s hg he).1 v hv
+  have b := (C01.eval_value_is_denotation_partial _ _ n s' hg' he').1 v' hv'
+  obtain ⟨d, hd⟩ := b
+  rw [← flags_irrelevant_to_values_partial env c1 c2 inp hinp hnone d n] at hd
+  have := Den_det _ _ n _ _ a ⟨d, hd⟩
+  cases this; rfl
+
+/-- the instance stated before: `None` allowed everywhere, no inputs -/
 theorem mechanism_results_flag_independent (env : Env) (c : CellId → Bool)
     (hnone : ∀ x, env.allowNone x = true) (n : Node) (s s' : St) (v v' : Val)
     (hg : Good env (fun _ => none) s) (hg' : Good (withFlags env c) (fun _ => none) s')
-    (h0 : s.hit = false) (h0' : s'.hit = false)
-    (he : (evalTop env n s).2.hit = false) (he' : (evalTop (withFlags env c) n s').2.hit = false)
-    (hv : (evalTop env n s).1 = .ok v) (hv' : (evalTop (withFlags env c) n s').1 = .ok v') : v = v' := by
-  have a := (C01.eval_value_is_denotation_partial env _ n s hg h0 he).1 v hv
-  have b := (C01.eval_value_is_denotation_partial (withFlags env c) _ n s' hg' h0' he').1 v' hv'
-  obtain ⟨d, hd⟩ := b
-  rw [flags_irrelevant_to_values env c hnone d n] at hd
-  have := Den_det env _ n _ _ a ⟨d, hd⟩
-  cases this; rfl
+    (he : LimitNotCaughtInThisCall env n s) (he' : LimitNotCaughtInThisCall (withFlags env c) n s')
+    (hv : (evalTop env n s).1 = .ok v) (hv' : (evalTop (withFlags env c) n s').1 = .ok v') : v = v' :=
+  mechanism_results_flag_independent_partial env env.cached c (fun _ => none) (fun n h => absurd rfl h)
+    (fun d n _ ha => by rw [hnone] at ha; cases ha) n s s' v v' hg hg' he he' hv hv'
 
 /-- **Uncached cells hold no values** (every reachable state of terminating programs). -/
 theorem uncached_holds_nothing (env : Env) (lt : Node → Node → Prop) (ho : StrictOrder lt)
@@ -131,5 +249,52 @@ example : (evalTop (withFlags nEnv (fun x => x != 0)) (1, []) {}).1 =
 /-! Non-vacuity: the program of C08 with `None` allowed, evaluated under two assignments. -/
 example : (evalTop { C08.gEnv with allowNone := fun _ => true } (3, []) {}).1 =
     (evalTop (withFlags { C08.gEnv with allowNone := fun _ => true } (fun _ => true)) (3, []) {}).1 := by decide
+
+/-! Non-vacuity for the DEFAULT configuration (`allow_none = False` everywhere, where the theorems
+stated before said nothing): `c0() = 3`, `c1() = c0() + 1`, an assigned value on the cached `c2`.
+No evaluation ends in `NoneReturnedError`; the assignment that makes `c0` uncached gives the same
+specification, and the mechanism the same answers. -/
+def qK : Res → Prog
+  | .ok (.int i) => .ret (.int (i + 1))
+  | .ok .none => .ret (.int 0)
+  | .err e => .reraise e
+
+def qEnv : Env where
+  formula := fun n => if n.1 = 0 then .ret (.int 3) else .call (0, []) qK
+  cached := fun _ => true
+  allowNone := fun _ => false
+  refs := fun _ => none
+  maxdepth := 10
+
+def qInp : Node → Option Val := fun n => if n = (2, []) then some (.int 50) else none
+
+theorem qEnv_none_never_returned : NoneNeverReturned qEnv qInp := by
+  have h0 : ∀ d, denoteN (withFlags qEnv (fun _ => true)) qInp (d + 1) (0, []) = (.ok (.int 3), false) := by
+    intro d; rfl
+  intro d n
+  cases d with
+  | zero => intro h; cases h
+  | succ d =>
+    simp only [denoteN]
+    split
+    · intro h; cases h
+    · by_cases hn : n.1 = 0
+      · have : (withFlags qEnv (fun _ => true)).formula n = .ret (.int 3) := by simp [withFlags, qEnv, hn]
+        rw [this]; intro h; cases h
+      · have : (withFlags qEnv (fun _ => true)).formula n = .call (0, []) qK := by simp [withFlags, qEnv, hn]
+        rw [this]
+        cases d with
+        | zero => intro h; cases h
+        | succ d =>
+          simp only [denoteBody, calleeAt, h0]
+          intro h; cases h
+
+example (d : Nat) (n : Node) :
+    denoteN (withFlags qEnv (fun c => c != 0)) qInp d n = denoteN (withFlags qEnv (fun _ => true)) qInp d n :=
+  flags_irrelevant_when_none_never_returned qEnv _ qInp
+    (by intro n h; by_cases hn : n = (2, []) <;> simp_all [qInp]) qEnv_none_never_returned d n
+
+example : (evalTop (withFlags qEnv (fun c => c != 0)) (1, []) {}).1 = .ok (.int 4) ∧
+    (evalTop (withFlags qEnv (fun _ => true)) (1, []) {}).1 = .ok (.int 4) := by decide
 
 end MxModel.C09
